@@ -348,12 +348,65 @@ pub fn run(ctx: &Ctx) -> Report {
         }
         rep.absorb(acc);
     }
+    // space 5: unassigned / not-enabled operators INSIDE softfork guards whose innermost extension enables nothing
+    // (extension 0, also nested in guards of extension 0 / 1 / an unknown extension): they must still be plain
+    // unknown operators priced by the rule. Whole programs through run_program against the reference interpreter
+    // (which knows no extension operators at all); declared guard costs are computed by the reference.
+    {
+        use crate::progspace::{t_digest, with_loaded};
+        use crate::props::c01::adapters;
+        use crate::refvm::Vm;
+        use crate::tree::{Enc, T, atom, list, nil, quote};
+        let mut acc = Acc::default();
+        let ops: Vec<Vec<u8>> = vec![vec![62], vec![63], vec![64], vec![65], vec![0x13, 0xd6, 0x1f, 0x01], vec![0x1c, 0x3a, 0x8f, 0x3f], vec![0x3c, 0x3f], vec![0x80]];
+        let argsets: Vec<Vec<T>> = vec![vec![quote(atom(b"foobar"))], vec![], vec![quote(atom(b"a")), quote(atom(b"bb"))]];
+        let ref_cost = |p: &T| -> Option<u128> {
+            let mut vm = Vm::new(adapters(), 0);
+            vm.eval(p, &nil()).ok().map(|_| vm.cost)
+        };
+        let guard = |ext: u8, body: &T| -> Option<T> {
+            let c = ref_cost(body)? + 140;
+            Some(list(&[atom(&[36]), quote(crate::tree::int_atom(c as i128)), quote(if ext == 0 { nil() } else { atom(&[ext]) }), quote(body.clone()), nil()]))
+        };
+        for op in &ops {
+            for args in &argsets {
+                let mut call = vec![atom(op)];
+                call.extend(args.iter().cloned());
+                let call = list(&call);
+                let mut progs: Vec<(String, T)> = vec![("bare".into(), call.clone())];
+                if let Some(g0) = guard(0, &call) {
+                    progs.push(("inside an extension-0 guard".into(), g0.clone()));
+                    for outer in [0u8, 1, 2] {
+                        if let Some(g) = guard(outer, &g0) {
+                            progs.push((format!("inside an extension-0 guard nested in an extension-{outer} guard"), g));
+                        }
+                    }
+                }
+                for (ctxname, p) in progs {
+                    let canon = format!("opcode {} {ctxname}: prog={}", hx(op), p.hex());
+                    guarded(&mut acc, &canon, |acc| {
+                        let mut vm = Vm::new(adapters(), 0);
+                        let r = vm.eval(&p, &nil());
+                        let o = with_loaded(&p, &nil(), Enc::Inline, |l| l.run_flags(ClvmFlags::empty(), 0));
+                        acc.inc("calls");
+                        acc.inc("guard_context_cases");
+                        match (&r, o.ok) {
+                            (Ok(t), true) if t_digest(t) == o.digest && vm.cost == o.cost as u128 => acc.inc("matched_cost"),
+                            (Err(_), false) => acc.inc("matched_failure"),
+                            _ => acc.violation(canon.clone(), format!("implementation {} but the rule (reference interpreter) gives {}", o.brief(), r.as_ref().map(|t| format!("{} cost {}", t.hex(), vm.cost)).unwrap_or_else(|e| format!("failure ({e})")))),
+                        }
+                    });
+                }
+            }
+        }
+        rep.absorb(acc);
+    }
     rep.evaluations = rep.acc.get("calls");
     rep.nontrivial = rep.acc.get("matched_cost");
     rep.states = rep.acc.get("cases");
     rep.transitions = rep.acc.get("calls");
     rep.traces = rep.acc.get("cases");
-    rep.rule = format!("every unassigned opcode of 1 and 2 bytes (assigned ones classified by an independent table) and every opcode up to {maxlen} bytes over {{00 01 3f 40 7f 80 bf c0 fe ff}}, plus 16 core opcodes with EVERY argument vector of arity 0..={} over shared atoms of sizes {pool_sizes:?} and a pair (with and without an atom terminator), plus the overflow corner (multipliers around k*2^64/base and 2^32/base for bases built from the largest atoms), under both cost models, budgets {{unlimited, base, base-1}} and strict mode, called through ChiaDialect::op; oracle: an independent u128 implementation of the published rule (nil + (multiplier+1)*base, or failure under the six listed conditions). Non-trivial = calls where rule and implementation agree on a successful cost.", ctx.pick(2, 3));
+    rep.rule = format!("every unassigned opcode of 1 and 2 bytes (assigned ones classified by an independent table) and every opcode up to {maxlen} bytes over {{00 01 3f 40 7f 80 bf c0 fe ff}}, plus 16 core opcodes with EVERY argument vector of arity 0..={} over shared atoms of sizes {pool_sizes:?} and a pair (with and without an atom terminator), plus the overflow corner (multipliers around k*2^64/base and 2^32/base for bases built from the largest atoms), under both cost models, budgets {{unlimited, base, base-1}} and strict mode, called through ChiaDialect::op (plus 8 unassigned / not-enabled opcodes evaluated by run_program bare and inside extension-0 guards nested in guards of extension 0, 1 and 2, against the reference interpreter); oracle: an independent u128 implementation of the published rule (nil + (multiplier+1)*base, or failure under the six listed conditions). Non-trivial = calls where rule and implementation agree on a successful cost.", ctx.pick(2, 3));
     rep.assumptions.push("large operands are shared atoms referenced several times (a 64 MiB atom is allocated once per worker)".into());
     rep
 }
